@@ -436,6 +436,128 @@ class Body:
                     self.rewrites.append(dict(rule='R3 panic-closure', line=self.line(a),
                                               what='.unwrap_or_else(|| panic!(..)) -> .unwrap()'))
 
+    # R7: Option combinators with an inline closure literal -> their defining match
+    #   X.and_then(|p| E)     => (match X { Some(p) => E, None => None })
+    #   X.map(|p| E)          => (match X { Some(p) => Some(E), None => None })
+    #   X.is_some_and(|p| E)  => (match X { Some(p) => E, None => false })
+    #   X.map_or(D, |p| E)    => (match X { Some(p) => E, None => D })
+    # only when the receiver is syntactically an Option-producing chain that the unit declares (the template lists
+    # R7 in rewrites=) and the closure body contains no `return`, `?`, `break`, `continue` (control flow that a
+    # closure would capture differently).  Evaluation order is unchanged: X first, then the body.
+    R7_METHODS = ('and_then', 'map', 'is_some_and', 'map_or')
+
+    def r7_option_combinators(self):
+        guard = 0
+        while True:
+            guard += 1
+            if guard > 200:
+                raise ExtractError('R7: rewrite did not terminate')
+            # edits must be applied one at a time because replacements nest: work on a fresh lex each round
+            if self.edits:
+                self.text = self.apply()
+                self.edits = []
+                self.toks = lex(self.text)
+            code = self.code()
+            T = lambda ci: self.toks[code[ci]]
+            n = len(code)
+            hit = None
+            for ci in range(1, n - 3):
+                t = T(ci)
+                if t[0] == 'ident' and t[1] in self.R7_METHODS and T(ci - 1)[1] == '.' and T(ci + 1)[1] == '(':
+                    close = self._close(code, ci + 1)
+                    # locate the closure literal among the arguments
+                    args_lo = ci + 2
+                    if t[1] == 'map_or':
+                        # first argument D up to ',' at depth 0
+                        k = args_lo
+                        depth = 0
+                        while k < close:
+                            tt = T(k)
+                            if tt[0] == 'punct' and tt[1] in OPEN:
+                                depth += 1
+                            elif tt[0] == 'punct' and tt[1] in CLOSE:
+                                depth -= 1
+                            elif depth == 0 and tt[1] == ',':
+                                break
+                            k += 1
+                        if k >= close:
+                            continue
+                        d_text = self.text[T(args_lo)[2]:T(k - 1)[3]]
+                        clo = k + 1
+                    else:
+                        d_text = None
+                        clo = args_lo
+                    if T(clo)[1] != '|':
+                        continue      # not an inline closure literal (e.g. a function path): leave untouched
+                    # closure parameter pattern: up to the matching '|'
+                    k = clo + 1
+                    while k < close and T(k)[1] != '|':
+                        k += 1
+                    if k >= close:
+                        continue
+                    pat = self.text[T(clo + 1)[2]:T(k - 1)[3]] if k > clo + 1 else '_'
+                    if ':' in [T(x)[1] for x in range(clo + 1, k)]:
+                        raise ExtractError('R7: typed closure parameter at line %d' % self.line(t[2]))
+                    body_lo = k + 1
+                    body_hi = close - 1
+                    # trailing comma inside the call
+                    if T(body_hi)[1] == ',':
+                        body_hi -= 1
+                    body_txt = self.text[T(body_lo)[2]:T(body_hi)[3]]
+                    for x in range(body_lo, body_hi + 1):
+                        if T(x)[1] in ('return', 'break', 'continue', '?'):
+                            raise ExtractError('R7: closure body with control flow at line %d' % self.line(t[2]))
+                    # receiver: walk back over the postfix chain
+                    r = ci - 2
+                    start = None
+                    KW = ('return', 'let', 'if', 'match', 'in', 'else', 'while', 'for', 'mut', 'ref', 'move')
+                    while r >= 0:
+                        tt = T(r)
+                        if tt[0] == 'punct' and tt[1] in (')', ']'):
+                            # skip to the opener
+                            depth = 0
+                            while r >= 0:
+                                if T(r)[0] == 'punct' and T(r)[1] in CLOSE:
+                                    depth += 1
+                                elif T(r)[0] == 'punct' and T(r)[1] in OPEN:
+                                    depth -= 1
+                                    if depth == 0:
+                                        break
+                                r -= 1
+                            start = r
+                            r -= 1
+                            continue
+                        if tt[0] in ('ident', 'num') and tt[1] not in KW:
+                            start = r
+                            r -= 1
+                            continue
+                        if tt[1] in ('.', '?'):
+                            r -= 1
+                            continue
+                        if tt[1] == ':' and r >= 1 and T(r - 1)[1] == ':':
+                            r -= 2
+                            continue
+                        break
+                    if start is None:
+                        raise ExtractError('R7: cannot find receiver at line %d' % self.line(t[2]))
+                    recv_txt = self.text[T(start)[2]:T(ci - 2)[3]]
+                    if t[1] == 'and_then':
+                        rep = '(match %s { Some(%s) => %s, None => None })' % (recv_txt, pat, body_txt)
+                    elif t[1] == 'map':
+                        rep = '(match %s { Some(%s) => Some(%s), None => None })' % (recv_txt, pat, body_txt)
+                    elif t[1] == 'is_some_and':
+                        rep = '(match %s { Some(%s) => %s, None => false })' % (recv_txt, pat, body_txt)
+                    else:
+                        rep = '(match %s { Some(%s) => %s, None => %s })' % (recv_txt, pat, body_txt, d_text)
+                    hit = (T(start)[2], T(close)[3], rep, t)
+                    break
+            if not hit:
+                return
+            a, b, rep, t = hit
+            self.rewrites.append(dict(rule='R7 option-combinator', line=self.line(t[2]), what='.%s(|..| ..) -> defining match' % t[1]))
+            self.text = self.text[:a] + rep + self.text[b:]
+            self.toks = lex(self.text)
+
     # R1: `&x` / `&mut x`-free ref patterns: Some(&x) -> Some(x__r) + let x = *x__r;
     def r1_ref_patterns(self):
         code = self.code()
